@@ -50,6 +50,23 @@ CLAIMED["C10"] = dict(
     text="Decides: the wild-card set is stored under exactly the text the terminal prints as (and the canoniser copies that text); a wild-card terminal is served by the cache-hit path only, always admitted, never evicted, its value is the stored set intersected with the current unit set; no scope entry can leak and change keys; the plain and extended drivers are the same pipeline up to parser flavour and wild-card handling whose effect is confined to two loops over the (then empty) context. Equality of results under substitution is not decided.",
     note=TRUST, ref="5/C10")
 
+CLAIMED["C05"] = dict(
+    technique="static analysis: grammar recovery from the resolved call structure of the recursive-descent levels compared with README.md's precedence list; Boolean equivalence of the prefix-rejection path condition with `i > 0`; control-dependence of extension tokens on the mode flag; abstract evaluation of look-ahead guards over a finite partition of the next character",
+    text="Decides: the levels search the operator classes in the README's precedence order, binary levels are right-associative and build the searched operator, prefix-operator levels recurse on the suffix and reject every non-empty prefix (no token is dropped), the terminal level accepts exactly one token and re-enters the top level for a group, every BinaryOp has exactly one level; wild-card tokens and domains are produced only under the mode flag which the plain entry sets to false; the guards of the E, A, 3, V arms hold exactly on the look-ahead classes where the operator reading can continue and name membership is decided by a single predicate; whitespace is skipped before every segment. Language equality over all strings is not decided.",
+    note=TRUST + "README.md is taken as the documented grammar.", ref="5/C05")
+CLAIMED["C06"] = dict(
+    technique="static analysis: who-may-construct / who-may-mutate rule over all struct literals and assignments; term equations for height; format-template coverage of the constructors; table agreement between Display spellings and the tokenizer's arm table",
+    text="Decides: HctlTreeNode literals occur only in the four constructors and no code assigns to its fields; height is 0 / child+1 / max(left,right)+1; each constructor's text is one pair of parentheses around every structural component exactly once and in order, the domain segment depends only on the presence of a domain, node_type stores exactly the arguments; every operator variant's Display text is tokenised back to the same variant, atoms print in the shapes the tokenizer reads. Round-trip equality over all trees is not decided.",
+    note=TRUST, ref="5/C06")
+CLAIMED["C07"] = dict(
+    technique="static analysis: variant-set agreement of all sites branching on the hybrid operator; dominance of uses by scope checks (path conditions); argument-flow rules for the recursive calls (depth naming, sibling isolation by by-value parameters); must-pass-through of validation in every string entry point",
+    text="Decides: scope extension, re-quantification check and variable collection all classify {bind, exists, forall} vs {jump} identically; a variable is renamed only through the scope map (absent -> Err), a re-quantified variable and an unbound jump target give Err, a proposition is accepted iff it names a network variable; the binding inserted for a quantifier is the parent's name plus exactly one character and reaches exactly its child, siblings see the parent's scope unchanged (by-value parameters, or paired removes), no other state is consulted; nodes are rebuilt through the constructors; every string entry point and the CLI evaluate only validated trees after the variable-support check. Alpha-equivalence and idempotence are not decided.",
+    note=TRUST, ref="5/C07")
+CLAIMED["C08"] = dict(
+    technique="static analysis: sibling comparison of the short and long operator arms; table agreement with README.md (long names, constants); structural rules for whitespace and parenthesised groups; name-only indexing of symbolic copies; must-pass-through of canonical renaming",
+    text="Decides: each hybrid operator has one short and one long arm building the same variant with the same domain permission (long names = README list); the constant spellings are exactly the README's; whitespace yields no token and a parenthesised group adds no node; evaluation sees only canonical names and selects the symbolic copy by the name's length; occurrences and binders are renamed through the same scope entry. Equality of results over all rewrites is not decided.",
+    note=TRUST + "README.md lists the documented spellings.", ref="5/C08")
+
 NOT_APPLICABLE = {
     "C09": "value-level property of a character-level rewriting (canonical strings coincide exactly for alpha-equivalent inputs, injectivity, idempotence, occurrence lower bounds); the only structural necessary condition (duplicates marked only for <= 1 variable) is a clause of C04 and is checked there (DESIGN.md section 9)",
 }
